@@ -293,20 +293,19 @@ def oracle_term(it):
     return True, name
 
 
-def autocatalytic(desc):
-    """some reaction direction consumes a species and produces more of it than it consumes (A -> 2 A, 2 A -> 3 A, ...)"""
-    for r in desc["reactions"]:
-        for sub, prod in ((r["sub"], r["prod"]), (r["prod"], r["sub"])):
-            if any(prod.get(l, 0) > n >= 1 for l, n in sub.items()):
-                return True
-    return False
-
-
 def known_term(it):
+    """F20: the hang is due to the size of the leap - the same script with a 65536 times smaller time step (and horizon) returns"""
     c, o = it["case"], it["obs"]
-    if c["engine"] == "tauleap" and "timeout" in o and autocatalytic(c["desc"]):
-        return ("F20", "tau-leap on an autocatalytic network (a reaction producing more of a species than it consumes): the population explodes "
-                       "and std::poisson_distribution<int> is asked for a mean beyond the range of int / infinite, from which it does not return")
+    if c["engine"] != "tauleap" or "timeout" not in o:
+        return None
+    c2 = dict(c)
+    k = 1.0 / 65536
+    c2.update({"dt": c["dt"] * k, "t_max": c["t_max"] * k, "t_sample": [t * k for t in c["t_sample"]], "interval": c["interval"] * k})
+    o2 = child.map_children("c10", "observe_term", [c2], timeout=12, env=(engine_build.san_env() if c.get("sanitize") else None))[0]
+    if "iterations" in o2 and o2.get("complete"):
+        return ("F20", "tau-leap with a leap so large (or a population growing so fast) that the expected number of firings of a channel in one "
+                       "step exceeds the range of int or is infinite: std::poisson_distribution<int> does not return from such a mean (the same "
+                       "script with a 65536 times smaller step completes)")
     return None
 
 
